@@ -52,7 +52,11 @@ def run(ck):
     c14.join_score(RuleView(ck, {"C14.2": "C01.9"}))
     ck.clause("C01.11", "what conflict resolution removes from a segment comes from that segment's own conflicting sub-run (as C15.3): "
                         "subtracting the other side's sub-run removes almost nothing and both segments keep the overlap")
-    c15.run(RuleView(ck, {"C15.3": "C01.11"}))
+    ck.clause("C01.12", "the conflicting sub-run handed to the trim reaches to the end of the overlap whatever unpaired labels lie in it "
+                        "(slice window, as C15.4): a sub-run cut short leaves a label paired in both segments")
+    ck.clause("C01.13", "the label tables the cut is counted in hold every label of their map inside the segment (as C15.8): a label "
+                        "left out shifts the cut of one segment against the other and a label stays paired in both")
+    c15.run(RuleView(ck, {"C15.3": "C01.11", "C15.4": "C01.12", "C15.8": "C01.13"}))
     ck.clause("C01.10", "a joined record is made only of segments that were checked against each other (the join bypasses the "
                         "chainer: a segment carried over from one part can cross the other part) (as C08.6)")
     c08._joined_row(RuleView(ck, {"C08.6": "C01.10"}))
